@@ -166,6 +166,9 @@ MUTANTS = [
     ("c01-velocity-default-bins", "C01", TOKF, "msg_velocity = self.velocity_bins[bin_velocity(event_pairing[0].velocity, self.velocity_bins)]", "msg_velocity = self.velocity_bins[bin_velocity(event_pairing[0].velocity)]", {"NOTE"}),
     ("c01-rest-guard-inverted", "C01", TOKF, "            if not cur_time == msg_time:\n                _apply_rest(msg_time - cur_time)", "            if cur_time == msg_time:\n                _apply_rest(msg_time - cur_time)", {"REST"}),
     ("c01-no-merge", "C01", TOKF, "        sequence_bar = Sequence()\n        sequence_bar.merge(sequences_bar)", "        sequence_bar = Sequence()", {"INPUT"}),
+    ("c12-velocity-truthiness", "C12", MTR, "velocity=msg.velocity if msg.velocity is not None else 127", "velocity=msg.velocity or 127", {"TRUTHY", "KINDS"}),
+    ("c07-swallow-errors", "C07", REL, "        self._messages = messages_normalized", "        try:\n            self._messages = messages_normalized\n        except Exception:\n            pass", {"EXCEPT"}),
+    ("c18-set-channel-early-return", "C18", REL, "        for msg in self._messages:\n            msg.channel = channel", "        if len(self._messages) == 0 or self._messages[0].channel == channel:\n            return\n        for msg in self._messages:\n            msg.channel = channel", {"FR", "REACH"}),
     ("c17-true-on-length-mismatch", "C17", ABS, "        if not len(self_pairings) == len(other_pairings):\n            return False", "        if not len(self_pairings) == len(other_pairings):\n            return True", {"RET", "LEN"}),
     ("c17-type-test-inverted", "C17", ABS, "if self_msg.message_type != other_msg.message_type:", "if self_msg.message_type == other_msg.message_type:", {"RET"}),
     ("c17-default-ignores-channel", "C17", ABS, "ignore_channel: bool = False,\n               ignore_time_signature", "ignore_channel: bool = True,\n               ignore_time_signature", {"RET"}),
